@@ -55,8 +55,9 @@ BatchCases ==
   \cup {[Blank EXCEPT !.op = "batchinv", !.n = n, !.zp = z, !.sx = s, !.rx = 0, !.ry = 3] :
            n \in {1, 2, 7, 16, 17, 33, 256}, z \in {0, 1, 2, 5, 1023, 1073741823, 715827882}, s \in {"0", "1", "r-1", "R"}}
 
-CodecLens == {0, 1, 2, 31, 32, 33, 48, 63, 64}
-CodecVals == {"0", "1", "255", "256", "r-1", "r", "r+1", "2r", "p-1", "p", "2^256-1", "2^255", "max", "hi", "lo", "rnd1", "rnd2", "rnd3"}
+CodecLens == IF Tier = "quick" THEN {0, 1, 2, 31, 32, 33, 48, 63, 64} ELSE 0 .. 64
+RndVals(n) == {"rnd" \o ToString(i) : i \in 1 .. n}
+CodecVals == {"0", "1", "255", "256", "r-1", "r", "r+1", "2r", "p-1", "p", "2^256-1", "2^255", "max", "hi", "lo"} \cup RndVals(IF Tier = "quick" THEN 3 ELSE 150)
 CodecCases ==
   {[Blank EXCEPT !.fn = f, !.len = n, !.val = v] : f \in {"SetBytes", "SetBytesLE"}, n \in CodecLens, v \in CodecVals}
   \cup {[Blank EXCEPT !.fn = f, !.len = n, !.val = v] : f \in {"SetBytesLECanonical"}, n \in CodecLens, v \in CodecVals}
